@@ -30,6 +30,8 @@ type Cfg struct {
 	Big bool
 	// GEPBias makes getelementptr instructions and constant expressions much more frequent.
 	GEPBias bool
+	// DebugInfo adds a specialised debug-info metadata graph (DICompileUnit, DIFile, types, scopes, locations ...).
+	DebugInfo bool
 }
 
 // DefaultCfg returns the 'full' profile.
